@@ -42,6 +42,10 @@ CHECKS["C18"] = dict(
     text="Proved for ALL sequences (any length) of child post-actions, remove(), replace(new), parent register/reregister/unregister that follow the documented protocol and avoid the recorded F7 state: every child (re/un)registration call succeeds (never registered twice, never unregistered while unregistered), every dropped child is unregistered, the wrapper returns only Continue/Reregister, and between operations the child is registered exactly when it is the kept child of a registered parent; events are forwarded only to the kept child. F7 (double unregister after a child returned Disable) is a known finding with a vm_compute witness (C18_F7_refuted). Correspondence: every sequence up to length 4 (thorough 6) plus random longer ones through the real TransientSource inside a real EventLoop with instrumented Generic<eventfd> children.",
     note="Trusted: Coq kernel, extraction, ocaml/driver, harness (instrumented child + transparent observer source). Children are modelled as a registered flag; timer children (double register is silent) are not run. No axioms.",
     technique="Coq proof (exhaustive case analysis lifted by induction over operation sequences) + exhaustive small-sequence differential correspondence", ref="DESIGN.md 4 (C18)")
+CHECKS["C19"] = dict(
+    text="Proved for ANY history of new/add_signals/remove_signals/set_signals/Drop, raises and dispatches: exactly the configured signals are blocked and watched by the signalfd, pending signals are blocked, nothing stays configured after Drop (C19_mask_exact); a dispatch reports exactly the pending configured signals and leaves none of them pending (reported once, unconfigured never); no pending signal that stays configured ever escapes to its ordinary handler (C19_no_escape). One repair: fix F8 (set_signals window). Correspondence: ~1500 random histories + all short sequences around set_signals run in a real single-threaded process with counting handlers; pthread_sigmask, handler counters and reported signals compared after every call; an oracle judges the real observations directly.",
+    note="Kernel signal semantics (coalescing, delivery on unblock, signalfd order) are an assumed environment model validated by the same runs. Sender pid is checked by the harness (own pid), other siginfo fields are not. No axioms.",
+    technique="Coq proof (invariant over all histories, pointwise over a finite signal universe) + differential correspondence in a real process", ref="DESIGN.md 4 (C19)")
 
 def main():
     props = [json.loads(l) for l in open(os.path.join(ROOT, "properties.jsonl"))]
